@@ -319,7 +319,7 @@ def normalise_mir(model: IterModel, name: str) -> str:
     txt = re.sub(r"\b%s\b" % re.escape(iname), "ITER", txt)
     txt = re.sub(r"\b%s\b" % re.escape(ename), "ENUM", txt)
     txt = re.sub(r'"fn_crate": "[^"]*"', '"fn_crate": "_"', txt)
-    txt = re.sub(r"[a-z0-9_]+::(ENUM|ITER)", r"\1", txt)
+    txt = re.sub(r"(?:[A-Za-z0-9_]+::)+(ENUM|ITER)", r"\1", txt)      # any depth of enclosing modules
     # the module the enum lives in (paths of the derive's own constants and helper fns carry it)
     mod = "::".join(model.info.def_path.split("::")[:-1])
     if mod:
